@@ -43,11 +43,138 @@ func (b *BackendSite) State() *HState {
 }
 
 type ServerModel struct {
-	L       *Loaded
-	DB      *SiteDB
-	Info    *types.Info
-	Backend []*BackendSite
-	res     map[*FuncInfo]*resolver
+	L         *Loaded
+	DB        *SiteDB
+	Info      *types.Info
+	Backend   []*BackendSite
+	res       map[*FuncInfo]*resolver
+	transp    map[*FuncInfo]int // memo of transparent(): 1 yes, 2 no
+	ctxFields []*FieldAccess
+}
+
+// anchorHelpers are unexported helpers that the rule tables name themselves (Appendix B,
+// the guard tables): their sites keep being judged under their own name.
+var anchorHelpers = map[string]bool{
+	"p9.walkOne":                  true,
+	"p9.doWalk":                   true,
+	"p9.fidRef.renameChildTo":     true,
+	"p9.clunkHandleXattr":         true,
+	"p9.notifyNameChange":         true,
+	"p9.notifyDelete":             true,
+	"p9.connState.handle":         true,
+	"p9.connState.handleRequest":  true,
+	"p9.connState.handleRequests": true,
+}
+
+// transparent reports whether fi is a private helper whose sites are judged in the context of
+// its callers instead of on its own: unexported, not a request handler, never used as a value,
+// called from somewhere, and analysed in place at every one of its call sites (small enough,
+// not recursive, callers themselves roots or transparent within the depth bound).
+func (m *ServerModel) transparent(fi *FuncInfo) bool {
+	return m.transparentAt(fi, 1)
+}
+
+func (m *ServerModel) transparentAt(fi *FuncInfo, depth int) bool {
+	if fi == nil || fi.Decl.Body == nil || fi.Obj.Exported() || anchorHelpers[fi.Key] || pinnedFuncs[fi.Key] || isHandlerFunc(fi) || depth > maxInlineDepth {
+		return false
+	}
+	if depth == 1 {
+		if v, ok := m.transp[fi]; ok {
+			return v == 1
+		}
+	}
+	uses := m.usesOf(fi)
+	ok := m.DB.weight(fi) <= maxInlineWeight && m.DB.Wrappers[fi.Obj] == nil && len(uses) > 0 && m.valueUses(fi) == 0
+	if ok {
+		for _, s := range uses {
+			if s.Root == fi || s.Root.Pkg != fi.Pkg {
+				ok = false // recursive, or called across packages
+				break
+			}
+			if _, isDefer := s.Node.(*ast.DeferStmt); isDefer {
+				ok = false
+				break
+			}
+			if _, isGo := s.Node.(*ast.GoStmt); isGo {
+				ok = false
+				break
+			}
+			// the caller is a root of its own, or a transparent helper one level up
+			if m.callerIsHelper(s.Root) && !m.transparentAt(s.Root, depth+1) {
+				ok = false
+				break
+			}
+		}
+	}
+	if depth == 1 {
+		if m.transp == nil {
+			m.transp = map[*FuncInfo]int{}
+		}
+		if ok {
+			m.transp[fi] = 1
+		} else {
+			m.transp[fi] = 2
+		}
+	}
+	return ok
+}
+
+// callerIsHelper: the function would itself be judged through its callers if it could be.
+func (m *ServerModel) callerIsHelper(fi *FuncInfo) bool {
+	return !fi.Obj.Exported() && !anchorHelpers[fi.Key] && !pinnedFuncs[fi.Key] && !isHandlerFunc(fi) && len(m.usesOf(fi)) > 0 && m.valueUses(fi) == 0 &&
+		m.DB.weight(fi) <= maxInlineWeight && m.DB.Wrappers[fi.Obj] == nil
+}
+
+// contextSites returns the call sites of key as the rules should judge them: a site written
+// in a transparent helper is replaced by its instances inside the functions that call the
+// helper (state, locks and facts of the caller included; Root = that caller; expressions are
+// rendered through Site.Res / Site.argExpr in the caller's frame).
+func (m *ServerModel) contextSites(key string) []*Site {
+	var out []*Site
+	for _, s := range m.DB.Calls[key] {
+		if !m.transparent(s.Root) {
+			out = append(out, s)
+		}
+	}
+	var roots []*FuncInfo
+	for fi := range m.DB.Deep {
+		roots = append(roots, fi)
+	}
+	sort.Slice(roots, func(i, j int) bool { return roots[i].Key < roots[j].Key })
+	type ck struct {
+		call  *ast.CallExpr
+		outer *ast.CallExpr
+		root  *FuncInfo
+	}
+	seen := map[ck]*Site{}
+	for _, root := range roots {
+		if m.transparent(root) {
+			continue
+		}
+		for _, d := range m.DB.Deep[root] {
+			if d.Callee != key {
+				continue
+			}
+			allTransparent := true
+			for _, fr := range d.Inl {
+				if !m.transparent(m.L.FuncOf(m.Info.Defs[fr.Decl.Name].(*types.Func))) {
+					allTransparent = false
+				}
+			}
+			if !allTransparent {
+				continue
+			}
+			k := ck{d.Call, d.Inl[0].Call, root}
+			if prev, ok := seen[k]; ok {
+				prev.St = hJoin(prev.St, d.St)
+				continue
+			}
+			cp := *d
+			seen[k] = &cp
+			out = append(out, &cp)
+		}
+	}
+	return out
 }
 
 func (m *ServerModel) resolver(fi *FuncInfo) *resolver {
@@ -84,24 +211,59 @@ func buildServerModel(l *Loaded) *ServerModel {
 		}
 	}
 	sort.Strings(keys)
-	seen := map[*ast.CallExpr]*BackendSite{}
+	type seenKey struct {
+		call  *ast.CallExpr
+		outer *ast.CallExpr
+		root  *FuncInfo
+	}
+	seen := map[seenKey]*BackendSite{}
 	for _, k := range keys {
+		// sites written in private helpers are judged inside the functions that call the helper
+		// (except where the receiver is the helper's own parameter: expansion 2 below)
+		sites := append([]*Site{}, m.contextSites(k)...)
 		for _, s := range db.Calls[k] {
+			if m.transparent(s.Root) {
+				if sel, ok := unparen(s.Call.Fun).(*ast.SelectorExpr); ok {
+					if v, ok := objOf(info, sel.X).(*types.Var); ok && paramIndex(s.Root, info, v) >= 0 {
+						sites = append(sites, s)
+					}
+				}
+			}
+		}
+		for _, s := range sites {
 			if isClientSide(s.Root) {
 				continue
 			}
-			if prev, ok := seen[s.Call]; ok {
+			sk := seenKey{call: s.Call, root: s.Root}
+			if len(s.Inl) > 0 {
+				sk.outer = s.Inl[0].Call
+				// the deep instance of a parameter-receiver site is represented by expansion 2
+				if sel, ok := unparen(s.Call.Fun).(*ast.SelectorExpr); ok {
+					if v, ok := objOf(info, sel.X).(*types.Var); ok {
+						if decl := l.declAt(s.Call.Pos()); decl != nil {
+							if hf := l.FuncOf(info.Defs[decl.Name].(*types.Func)); hf != nil && paramIndex(hf, info, v) >= 0 {
+								continue
+							}
+						}
+					}
+				}
+			}
+			if prev, ok := seen[sk]; ok {
 				// Visited several times (loop wrappers): keep the weakest state.
 				prev.Site.St = hJoin(prev.Site.St, s.St)
 				continue
 			}
-			res := m.resolver(s.Root)
+			res := s.Res
+			if res == nil {
+				res = m.resolver(s.Root)
+			}
 			sel, ok := unparen(s.Call.Fun).(*ast.SelectorExpr)
 			if !ok {
 				continue
 			}
-			bs := &BackendSite{Site: s, Method: sel.Sel.Name, Recv: res.str(sel.X), Args: s.Call.Args}
-			for _, a := range s.Call.Args {
+			bs := &BackendSite{Site: s, Method: sel.Sel.Name, Recv: res.str(sel.X)}
+			for i, a := range s.Call.Args {
+				bs.Args = append(bs.Args, s.argExpr(info, i))
 				bs.ArgStrs = append(bs.ArgStrs, res.str(a))
 			}
 			if strings.HasSuffix(bs.Recv, ".file") {
@@ -121,7 +283,7 @@ func buildServerModel(l *Loaded) *ServerModel {
 					}
 				}
 			}
-			seen[s.Call] = bs
+			seen[sk] = bs
 			m.Backend = append(m.Backend, bs)
 		}
 	}
@@ -129,11 +291,14 @@ func buildServerModel(l *Loaded) *ServerModel {
 	for fobj, byParam := range paramUses {
 		fi := l.FuncOf(fobj)
 		for pi, uses := range byParam {
-			for _, cs := range db.Calls[fi.Key] {
+			for _, cs := range m.contextSites(fi.Key) {
 				if isClientSide(cs.Root) || pi >= len(cs.Call.Args) {
 					continue
 				}
-				res := m.resolver(cs.Root)
+				res := cs.Res
+				if res == nil {
+					res = m.resolver(cs.Root)
+				}
 				recv := res.str(cs.Call.Args[pi])
 				for _, u := range uses {
 					// Arguments that are parameters of the helper are replaced by the outer call's arguments.
@@ -142,7 +307,7 @@ func buildServerModel(l *Loaded) *ServerModel {
 					for ai, a := range u.Args {
 						if v, ok := objOf(info, a).(*types.Var); ok {
 							if pj := paramIndex(fi, info, v); pj >= 0 && pj < len(cs.Call.Args) {
-								args[ai] = cs.Call.Args[pj]
+								args[ai] = cs.argExpr(info, pj)
 								argStrs[ai] = res.str(cs.Call.Args[pj])
 							}
 						}
@@ -458,8 +623,14 @@ func (m *ServerModel) valueUses(fi *FuncInfo) int {
 			if sel, ok := m.L.parent(id).(*ast.SelectorExpr); ok && sel.Sel == id {
 				ref = sel
 			}
-			if call, ok := m.L.parent(ref).(*ast.CallExpr); ok && unparen(call.Fun) == ref.(ast.Expr) {
-				continue
+			if call, ok := m.L.parent(ref).(*ast.CallExpr); ok {
+				if unparen(call.Fun) == ref.(ast.Expr) {
+					continue
+				}
+				// handed to a callback wrapper as its callback: analysed in place like a literal
+				if w := m.DB.Wrappers[callee(p.TypesInfo, call)]; w != nil && w.ParamIdx < len(call.Args) && unparen(call.Args[w.ParamIdx]) == ref.(ast.Expr) {
+					continue
+				}
 			}
 			n++
 		}
@@ -614,4 +785,201 @@ func isAssertTo(info *types.Info, typeSuffix string) func(ast.Expr) bool {
 		t := info.TypeOf(ta.Type)
 		return t != nil && strings.HasSuffix(types.TypeString(t, nil), typeSuffix)
 	}
+}
+
+// rootPos: the position, inside Root, at which the site runs: the call itself, or - for a site
+// inside helpers analysed in place - the call in Root that enters the outermost helper.
+func (s *Site) rootPos() token.Pos {
+	if len(s.Inl) > 0 {
+		return s.Inl[0].Call.Pos()
+	}
+	return s.Call.Pos()
+}
+
+// rootsOf returns the functions on whose behalf fi runs for the purposes of the rules: fi
+// itself, or - for a private helper that is judged in its callers' context - the roots of its
+// callers.  "This may only happen in X" is checked as rootsOf(fi) ⊆ {X}.
+func (m *ServerModel) rootsOf(fi *FuncInfo) []*FuncInfo {
+	seen := map[*FuncInfo]bool{}
+	var out []*FuncInfo
+	var walk func(f *FuncInfo, depth int)
+	walk = func(f *FuncInfo, depth int) {
+		if !m.transparent(f) || depth > 3 {
+			if !seen[f] {
+				seen[f] = true
+				out = append(out, f)
+			}
+			return
+		}
+		for _, s := range m.usesOf(f) {
+			walk(s.Root, depth+1)
+		}
+	}
+	walk(fi, 0)
+	sort.Slice(out, func(i, j int) bool { return out[i].Key < out[j].Key })
+	return out
+}
+
+// onlyFor: fi runs only on behalf of the function with the given key.
+func (m *ServerModel) onlyFor(fi *FuncInfo, key string) bool {
+	roots := m.rootsOf(fi)
+	if len(roots) == 0 {
+		return false
+	}
+	for _, r := range roots {
+		if r.Key != key {
+			return false
+		}
+	}
+	return true
+}
+
+// fields returns the field accesses as the rules should judge them: an access written in a
+// transparent helper is replaced by its instances inside the functions that call the helper
+// (Root = that caller, state and locks of the caller's context; FieldAccess.Res renders the
+// base expression in the caller's frame).
+func (m *ServerModel) fields() []*FieldAccess {
+	if m.ctxFields != nil {
+		return m.ctxFields
+	}
+	var out []*FieldAccess
+	for _, fa := range m.DB.Fields {
+		if !m.transparent(fa.Root) {
+			out = append(out, fa)
+		}
+	}
+	for _, fa := range m.DB.DeepFields {
+		if m.transparent(fa.Root) {
+			continue
+		}
+		all := true
+		for _, fr := range fa.Inl {
+			if !m.transparent(m.L.FuncOf(m.Info.Defs[fr.Decl.Name].(*types.Func))) {
+				all = false
+			}
+		}
+		if all {
+			out = append(out, fa)
+		}
+	}
+	m.ctxFields = out
+	return out
+}
+
+// flowOut follows a local variable of a transparent helper through the helper's return
+// statements into the variables its callers assign the results to (transitively): the
+// objects that hold "the same value" for rules that trace a backend result to a reply field.
+// The variable itself is always part of the result.
+func (m *ServerModel) flowOut(obj types.Object) []types.Object {
+	out := []types.Object{obj}
+	seen := map[types.Object]bool{obj: true}
+	for i := 0; i < len(out) && i < 16; i++ {
+		o := out[i]
+		decl := m.L.declAt(o.Pos())
+		if decl == nil {
+			continue
+		}
+		fobj, _ := m.Info.Defs[decl.Name].(*types.Func)
+		h := m.L.FuncOf(fobj)
+		if h == nil || !m.transparent(h) {
+			continue
+		}
+		// positions at which every return hands out o (named results count by position)
+		var named []types.Object
+		if decl.Type.Results != nil {
+			for _, f := range decl.Type.Results.List {
+				for _, nm := range f.Names {
+					named = append(named, m.Info.Defs[nm])
+				}
+			}
+		}
+		pos := map[int]bool{}
+		for j, n := range named {
+			if n == o {
+				pos[j] = true
+			}
+		}
+		ast.Inspect(decl.Body, func(n ast.Node) bool {
+			if _, isLit := n.(*ast.FuncLit); isLit {
+				return false
+			}
+			if ret, ok := n.(*ast.ReturnStmt); ok {
+				for j, e := range ret.Results {
+					if objOf(m.Info, e) == o {
+						pos[j] = true
+					}
+				}
+			}
+			return true
+		})
+		if len(pos) == 0 {
+			continue
+		}
+		for _, s := range m.DB.Calls[h.Key] {
+			as, ok := m.L.parent(s.Call).(*ast.AssignStmt)
+			if !ok || len(as.Rhs) != 1 {
+				continue
+			}
+			for j := range pos {
+				if j < len(as.Lhs) {
+					if lo := objOf(m.Info, as.Lhs[j]); lo != nil && !seen[lo] {
+						seen[lo] = true
+						out = append(out, lo)
+					}
+				}
+			}
+		}
+	}
+	return out
+}
+
+// usesOf: the places from which fi runs: its static call sites and the wrapper calls that
+// receive it as their callback (Site.Virtual).
+func (m *ServerModel) usesOf(fi *FuncInfo) []*Site {
+	out := append([]*Site{}, m.DB.Calls[fi.Key]...)
+	var roots []*FuncInfo
+	for r := range m.DB.Virtual {
+		roots = append(roots, r)
+	}
+	sort.Slice(roots, func(i, j int) bool { return roots[i].Key < roots[j].Key })
+	for _, r := range roots {
+		for _, v := range m.DB.Virtual[r] {
+			if v.Callee == fi.Key {
+				out = append(out, v)
+			}
+		}
+	}
+	return out
+}
+
+// succeededAt: at state st the backend/helper call of site is known to have returned a nil
+// error.  The call and its error variable are rendered the way they were rendered at the site
+// (Site.Res: the frame of a helper analysed in place included).
+func (m *ServerModel) succeededAt(st *HState, site *Site) bool {
+	if st.Dead {
+		return true
+	}
+	res := site.Res
+	if res == nil {
+		res = m.resolver(site.Root)
+	}
+	if st.holds(res.str(site.Call)+" == nil", true) {
+		return true
+	}
+	for obj, def := range st.Defs {
+		if def == ast.Node(site.Call) && isErrorType(obj.Type()) {
+			if st.holds(res.nameOf(obj)+" == nil", true) {
+				return true
+			}
+		}
+	}
+	// the error variable of the assignment, by name (Defs may have been joined away)
+	if as, ok := m.L.parent(site.Call).(*ast.AssignStmt); ok && len(as.Rhs) == 1 && len(as.Lhs) > 0 {
+		if eo := objOf(m.Info, as.Lhs[len(as.Lhs)-1]); eo != nil && isErrorType(eo.Type()) {
+			if def, has := st.Defs[eo]; has && def == ast.Node(site.Call) && st.holds(res.nameOf(eo)+" == nil", true) {
+				return true
+			}
+		}
+	}
+	return false
 }
